@@ -197,6 +197,13 @@ def length_catalogue(rng):
     for model in ("half space model", "plate model"):
         sv = rng.choice([[[0, [[0.05, 0.04]]], [1, [[0.01, 0.02]]]], [[0, [[0.05, 0.04, 0.03]]]], [], [[0, [[0.05, 0.04, 0.03, 0.02, 0.01, 0.005, 0.001]]]], [[0, [[0.05, 0.04, 0.03]]], [1, [[0.01]]]]])
         out.append(("ridge-table@%s" % model, _oce(model), _oce(model, **{"spreading velocity": sv})))
+    # unsupported option values that the schema cannot express (free strings)
+    tw = {"model": "tian water content", "compositions": [0], "lithology": rng.choice(["peridotite", "gabbro", "MORB", "sediment"]), "max depth": 100e3}
+    ocean = lambda m: {"model": "oceanic plate", "name": "lo", "coordinates": POLY, "max depth": 100e3, "temperature models": [{"model": "uniform", "temperature": 800}], "composition models": [m]}
+    out.append(("option:lithology@oceanic", ocean(tw), ocean(dict(tw, lithology=rng.choice(["basalt", "morb", "Peridotite", ""])))))
+    tws = {"model": "tian water content", "compositions": [0], "lithology": "sediment", "max distance slab top": 100e3}
+    out.append(("option:lithology@slab", _slab(**{"composition models": [tws], "temperature models": [{"model": "uniform", "temperature": 700}]}),
+                _slab(**{"composition models": [dict(tws, lithology=rng.choice(["basalt", "gabro"]))], "temperature models": [{"model": "uniform", "temperature": 700}]})))
     # arity
     out.append(("value-at-points:point-arity", _cont(**{"max depth": [[100e3, [[0, 0]]], [150e3, [[50e3, 50e3]]]]}), _cont(**{"max depth": [[100e3, [[0, 0]]], [150e3, [rng.choice([[50e3], []])]]]})))
     return out
